@@ -70,3 +70,32 @@ func lookupOrdered(op *fstxn.FsTxn, name nfstypes.Filename3, parent fh.Fh, inm c
 	}
 	return inodes
 }
+
+// ancestors returns inum and the directories above it up to the root, by
+// following ".." entries. Each directory is locked on its own and released
+// before the next one is looked at, so no lock order is involved; the caller
+// holds renameMu, which keeps the chain stable (only a rename between
+// directories changes a directory's ancestors).
+func (nfs *Nfs) ancestors(inum common.Inum) []common.Inum {
+	var chain []common.Inum
+	var cur = inum
+	for i := uint64(0); i < uint64(nfs.fsstate.Super.NInode()); i++ {
+		chain = append(chain, cur)
+		if cur == common.ROOTINUM {
+			break
+		}
+		op := fstxn.Begin(nfs.fsstate)
+		ip := op.GetInodeInum(cur)
+		if ip == nil {
+			op.Abort()
+			break
+		}
+		parent, _ := dir.LookupName(ip, op, "..")
+		op.Abort()
+		if parent == common.NULLINUM {
+			break
+		}
+		cur = parent
+	}
+	return chain
+}
